@@ -9,7 +9,8 @@ def canon(o, depth=0):
     if isinstance(o, np.ndarray):
         if o.dtype == object:
             return ("nd-object", o.shape, tuple(canon(v, depth + 1) for v in o.ravel().tolist()))
-        return ("nd", str(o.dtype), o.shape, o.tobytes())
+        b = o.tobytes()
+        return ("nd", str(o.dtype), o.shape, b if len(b) <= 64 else hashlib.sha1(b).hexdigest())
     if isinstance(o, (np.floating, float)):
         return ("f", type(o).__name__, float(o).hex())
     if isinstance(o, (np.integer,)):
